@@ -234,6 +234,21 @@ class ImplRunner:
                         env.render_state(mode="human")
                         env.render_obs(mode="human")
                         env.render_action(env.action_space.sample() if not self.modes[1] else 0)
+                    # the two documented read-only queries about the scenario, and a shallow copy of the environment
+                    # that the caller plays with (its own episode): neither may change any later answer of this one
+                    try:
+                        env.get_minimum_hops()
+                        env.get_score_upper_bound()
+                    except Exception:   # noqa: BLE001 -- their results belong to C20
+                        pass
+                    try:
+                        import copy
+                        twin = copy.copy(env)
+                        twin.reset()
+                        twin.step(twin.action_space.sample())
+                        twin.reset()
+                    except Exception:   # noqa: BLE001
+                        pass
                 return [3, int(bool(env.goal_reached(self.pool[op[1]])))]
             if tag == 4:
                 m = env.get_action_mask()
@@ -247,8 +262,12 @@ class ImplRunner:
                 st = env.generate_initial_state()      # documented: does not touch the environment
                 self.pool.append(st)
                 return [5, state_wire(st.tensor, self.lay)]
-        except Inexact:
-            raise
+        except Inexact as e:
+            # the inputs are exact, so a number outside the exact domain was made by the implementation: an output
+            # the model cannot produce; reported like an exception of the call (the model answers, the implementation
+            # has no answer in the domain)
+            self.last_error = "inexact output: " + repr(e)
+            return [9]
         except Exception as e:   # noqa: BLE001 -- every exception class maps to the model's RError
             self.last_error = repr(e)
             return [9]
